@@ -67,7 +67,7 @@ def cases(tier, seed):
                        "mode": mode, "req": req, "shuffle": shuffle,
                        "reload": rl, "policy": pol,
                        "preround": 1 + core.pick(
-                           [desc, far, kind, n, mode, req, shuffle, rl], 2)
+                           [desc, far, kind, n, mode, req, shuffle, rl], 3)
                        if far != "sampler" else 1}
             if far != "sampler" and kind != "cases" and rl % 2 == 0 and (
                     tier == "thorough" or h == 0):
@@ -221,7 +221,7 @@ def check_case(case):
     dcombos = {a: v for a, v in combos} if combos else None
     dcases = [tuple(c) for c in cs] if cs else None
 
-    def make_farmer(root):
+    def make_farmer(root, f=f):
         import copy
 
         # (each farmer gets private copies of the description)
@@ -297,7 +297,7 @@ def check_case(case):
     # same Crop object; the reference does the same round directly
     pre = case.get("preround")
     pcombos, pcases = dcombos, dcases
-    if pre:
+    if pre in (1, 2):
         if kind == "grid":
             a0 = list(dcombos)[0]
             pcombos = dict(dcombos)
@@ -315,7 +315,7 @@ def check_case(case):
         # (the reference goes through one object throughout)
         seed_existing(twin, "late")
     # ---- twin: the direct run ---------------------------------------------
-    builtins._xv_draws = dict(twin_draws) if pre else {}
+    builtins._xv_draws = dict(twin_draws) if pre in (1, 2) else {}
     try:
         want = direct(twin, overwrite=pol)
         direct_err = None
@@ -329,13 +329,28 @@ def check_case(case):
     B = 0
     rcrop = None
     try:
+        if pre == 3:
+            # another session sowed and grew - but never reaped - the same
+            # sweep with an earlier version of the function, under the same
+            # crop name; the function is then corrected and the crop sown
+            # again from scratch
+            crop0 = make_farmer(d, f=f1).Crop(name="k", parent_dir=d, **kws)
+            if kind == "grid":
+                crop0.sow_combos(dcombos, verbosity=0)
+            elif kind == "mix":
+                crop0.sow_combos(dcombos, cases=[dict(zip(fn_args, c))
+                                                 for c in dcases], verbosity=0)
+            else:
+                crop0.sow_cases(fn_args, dcases, verbosity=0)
+            crop0.grow_missing(verbosity=0)
+            del crop0
         if case.get("ctor"):
             # (a shuffle given to the constructor, a plain sow afterwards)
             crop = xyz.Crop(farmer=farmer, name="k", parent_dir=d, shuffle=5,
                             **kws)
         else:
             crop = farmer.Crop(name="k", parent_dir=d, **kws)
-        if pre:
+        if pre in (1, 2):
             if far == "sampler":
                 crop.sow_samples(n, verbosity=0)
             elif kind == "grid":
